@@ -119,6 +119,16 @@ class Partial(Val):
 
 
 @dataclass(eq=False)
+class Getter(Val):
+    """operator.itemgetter(..) / attrgetter(..) / methodcaller(..): a callable that projects its argument."""
+
+    kind: str  # item | attr | method
+    keys: list  # item: [Val]; attr: [dotted names]; method: [name]
+    args: list = field(default_factory=list)
+    kwargs: dict = field(default_factory=dict)
+
+
+@dataclass(eq=False)
 class Alt(Val):
     options: list  # [(Formula, Val)]
 
@@ -148,6 +158,25 @@ class Frame:
         self.raised: list = []  # conditions (relative to the frame's entry) under which an exception leaves the frame
 
 
+def is_namedtuple(repo: Repo, ci: ClassInfo) -> bool:
+    """class X(NamedTuple) (or a class made by the functional forms, see Interp.lib_call)."""
+    for c in repo.mro(ci):
+        if any(str(b).split(".")[-1] in ("NamedTuple", "namedtuple") for b in c.bases):
+            return True
+    return False
+
+
+def is_enum(repo: Repo, ci: ClassInfo) -> bool:
+    for c in repo.mro(ci):
+        if any(str(b).split(".")[-1] in ("Enum", "IntEnum", "StrEnum", "Flag", "IntFlag") for b in c.bases):
+            return True
+    return False
+
+
+def enum_members(repo: Repo, ci: ClassInfo) -> list[str]:
+    return [n for c in reversed(repo.mro(ci)) for n in c.class_attrs if not n.startswith("_")]
+
+
 def is_prop(m: FuncInfo) -> bool:
     return m.is_property or any(d.split(".")[-1] in ("cached_property", "lazy_property") for d in m.decorators)
 
@@ -156,6 +185,8 @@ def term_of(v: Val) -> tuple:
     if isinstance(v, Sym):
         return v.term
     if isinstance(v, Const):
+        if isinstance(v.value, tuple) and v.value[:1] == ("enum",):
+            return ("const", f"{str(v.value[1]).split('.')[-1]}.{v.value[2]}")
         return ("const", repr(v.value))
     if isinstance(v, Tup):
         return ("tuple", *[term_of(x) for x in v.items])
@@ -177,6 +208,8 @@ def term_of(v: Val) -> tuple:
         return ("bound", term_of(v.recv), v.name)
     if isinstance(v, Partial):
         return ("partial", term_of(v.fn), *[term_of(a) for a in v.args])
+    if isinstance(v, Getter):
+        return ("getter", v.kind, *[term_of(k) if isinstance(k, Val) else ("const", repr(k)) for k in v.keys])
     return ("?",)
 
 
@@ -312,7 +345,7 @@ class Interp:
             return f_or([f_and([g, self.truth(o)]) for g, o in v.options])
         if isinstance(v, Tup):
             return TRUE if v.items else FALSE
-        if isinstance(v, (Fn, ClsV, Bound, SuperV, Partial)):
+        if isinstance(v, (Fn, ClsV, Bound, SuperV, Partial, Getter)):
             return TRUE
         if isinstance(v, Inst):
             if self.repo.lookup_method(v.cls, "__bool__") is not None or self.repo.lookup_method(v.cls, "__len__") is not None:
@@ -323,6 +356,8 @@ class Interp:
                 return FALSE
             if all(g == TRUE for _x, g in v.entries) and not any(isinstance(x, Sym) and any(isinstance(st, tuple) and st and st[0] in ("elem", "key", "val") for st in subterms(x.term)) for x, _g in v.entries):
                 return TRUE  # holds elements that were put there unconditionally and not by a symbolic iteration
+            if not any(any(isinstance(st, tuple) and st and st[0] in ("elem", "key", "val") for st in subterms(term_of(x))) for x, _g in v.entries) and f"removed(coll#{v.serial})" not in self.atom_info:
+                return f_or([g for _x, g in v.entries])  # each element is there exactly when its own condition holds
             a = self.mk_atom(f"nonempty(coll#{v.serial})", kind="nonempty", coll=v)
             if a[0] == "atom":
                 self.atom_info[a[1]]["witnesses"] = [g for _x, g in v.entries]
@@ -441,7 +476,7 @@ class Interp:
             elif isinstance(lv, Const) and lv.value is None:
                 f = self.is_none(rv)
             elif isinstance(lv, Const) and isinstance(rv, Const):
-                f = TRUE if lv.value is rv.value else FALSE
+                f = TRUE if (lv.value is rv.value or (type(lv.value) is type(rv.value) and isinstance(lv.value, (tuple, str, bool, int)) and lv.value == rv.value)) else FALSE
             elif lv is rv:
                 f = TRUE
             else:
@@ -496,6 +531,10 @@ class Interp:
                 return TRUE  # a key obtained by iterating this very mapping
         if isinstance(container, (Coll, DictV)) and not container.entries:
             return FALSE
+        if isinstance(container, Coll) and isinstance(item, Const) and all(isinstance(x, Const) for x, _g in container.entries):
+            return f_or([g for x, g in container.entries if x.value == item.value and type(x.value) is type(item.value)])
+        if isinstance(container, DictV) and isinstance(item, Const) and all(isinstance(k, Const) for k, _x, _g in container.entries):
+            return f_or([g for k, _x, g in container.entries if k.value == item.value and type(k.value) is type(item.value)])
         if isinstance(container, Tup) and isinstance(item, Const) and all(isinstance(x, Const) for x in container.items):
             return TRUE if any(x.value == item.value for x in container.items) else FALSE
         if isinstance(container, DictV):
@@ -529,7 +568,48 @@ class Interp:
             return None
         if isinstance(v, Sym):
             return [(x, TRUE) for x in self.elems_of(v)]
+        if isinstance(v, Inst):
+            t = self.as_tuple(v)
+            if t is not None:
+                return [(x, TRUE) for x in t.items]
+            return self.iterate_object(v)
+        if isinstance(v, ClsV) and is_enum(self.repo, v.ci):
+            return [(Const(("enum", v.ci.fq, n)), TRUE) for n in enum_members(self.repo, v.ci)]
         return None
+
+    def as_tuple(self, v: Val) -> "Tup | None":
+        """The fields of a NamedTuple record, in order."""
+        if isinstance(v, Inst) and is_namedtuple(self.repo, v.cls):
+            names: list[str] = []
+            for c in reversed(self.repo.mro(v.cls)):
+                for n in c.ann_attrs:
+                    if n not in names:
+                        names.append(n)
+            if all(n in v.fields for n in names):
+                return Tup(tuple(v.fields[n] for n in names))
+        return None
+
+    def iterate_object(self, v: Inst) -> list | None:
+        """`for x in obj` for an object of a repo class with the iterator protocol: the elements `__iter__` yields (a generator
+        method), or one abstract `__next__()` when the object is its own iterator."""
+        busy = self.__dict__.setdefault("_iter_busy", set())
+        it = self.repo.lookup_method(v.cls, "__iter__")
+        if it is None or id(v) in busy or not self.descend(it):
+            gi = self.repo.lookup_method(v.cls, "__getitem__") if it is None else None
+            return None
+        busy.add(id(v))
+        try:
+            res = self.invoke(it, v, [], {}, None, None, None)
+            if res is v or (isinstance(res, Inst) and res.cls is v.cls and self.repo.lookup_method(res.cls, "__next__") is not None):
+                nx = self.repo.lookup_method(v.cls, "__next__")
+                if nx is None or not self.descend(nx):
+                    return None
+                one = self.invoke(nx, res, [], {}, None, None, None)
+                self.pending.clear()  # StopIteration ends the loop: it does not leave the frame
+                return [(one, self.taint("iterator-protocol", None))]
+            return self.iterate(res)
+        finally:
+            busy.discard(id(v))
 
     def elems_of(self, s: Sym) -> list:
         t = s.term
@@ -718,13 +798,23 @@ class Interp:
             return Fn(self.lambda_func(e, fr), None, fr)
         if isinstance(e, ast.JoinedStr):
             parts = []
+            vals = []
             for p in e.values:
                 if isinstance(p, ast.Constant):
                     parts.append(("const", repr(p.value)))
+                    vals.append(Const(p.value))
                 elif isinstance(p, ast.FormattedValue):
-                    parts.append(term_of(self.eval(p.value, fr)))
+                    pv = self.eval(p.value, fr)
+                    if isinstance(pv, Const) and isinstance(pv.value, tuple) and pv.value[:1] == ("enum",):
+                        pv = Sym(("enumstr", pv.value[1], pv.value[2]))
+                    parts.append(term_of(pv))
+                    vals.append(pv)
             if all(p[0] == "const" for p in parts):
-                return Const("".join(ast.literal_eval(p[1]) for p in parts))
+                return Const("".join(str(ast.literal_eval(p[1])) for p in parts))
+            # a name put together from a finite set of strings (`f"_judge_{verb}"` with the verb chosen by a condition)
+            if all(isinstance(v, Const) or (isinstance(v, Alt) and all(isinstance(o, Const) and isinstance(o.value, str) for _g, o in v.options)) for v in vals) and sum(isinstance(v, Alt) for v in vals) == 1:
+                alt = next(v for v in vals if isinstance(v, Alt))
+                return self.mk_alt([(g, Const("".join(str(o.value) if v is alt else str(v.value) for v in vals))) for g, o in alt.options])
             return Sym(("fstr", *parts))
         if isinstance(e, ast.BinOp):
             a, b = self.eval(e.left, fr), self.eval(e.right, fr)
@@ -732,9 +822,34 @@ class Interp:
                 c = Coll(a.kind, list(a.entries), self.serial())
                 c.entries += self.iterate(b) or []
                 return c
+            if isinstance(a, Coll) and isinstance(b, (Coll, Tup)) and isinstance(e.op, (ast.BitAnd, ast.Sub, ast.BitXor)):
+                # set algebra over concrete elements (sets of flags, verbs, enum members, names)
+                ea, eb = a.entries, (b.entries if isinstance(b, Coll) else [(x, TRUE) for x in b.items])
+                if all(isinstance(x, Const) and g == TRUE for x, g in [*ea, *eb]):
+                    inb = {repr(x.value) for x, _g in eb}
+                    ina = {repr(x.value) for x, _g in ea}
+                    if isinstance(e.op, ast.BitAnd):
+                        keep = [(x, g) for x, g in ea if repr(x.value) in inb]
+                    elif isinstance(e.op, ast.Sub):
+                        keep = [(x, g) for x, g in ea if repr(x.value) not in inb]
+                    else:
+                        keep = [(x, g) for x, g in ea if repr(x.value) not in inb] + [(x, g) for x, g in eb if repr(x.value) not in ina]
+                    out_c = Coll(a.kind, keep, self.serial())
+                    out_c.literal = not keep  # type: ignore[attr-defined]
+                    return out_c
+                if isinstance(e.op, ast.BitAnd) and all(isinstance(x, Const) and g == TRUE for x, g in eb):
+                    # membership of each (conditionally added) element of `a` in a concrete set
+                    inb = {repr(x.value) for x, _g in eb}
+                    if all(isinstance(x, Const) for x, _g in ea):
+                        return Coll(a.kind, [(x, g) for x, g in ea if repr(x.value) in inb], self.serial())
+                if isinstance(e.op, ast.BitAnd) and all(isinstance(x, Const) and g == TRUE for x, g in ea) and all(isinstance(x, Const) for x, _g in eb):
+                    ina = {repr(x.value) for x, _g in ea}
+                    return Coll(a.kind, [(x, g) for x, g in eb if repr(x.value) in ina], self.serial())
             if isinstance(a, Coll) and isinstance(b, (Coll, Tup, Sym)) and isinstance(e.op, ast.Sub):
                 # set difference: the elements of `a` that are kept (which ones is not modelled)
                 return Coll(a.kind, [(x, f_and([gx, self.mk_atom(f"kept-by-difference({show_term(term_of(x))})", kind="setop", node=e)])) for x, gx in a.entries], self.serial())
+            if isinstance(e.op, ast.Add) and isinstance(self.as_tuple(a) or a, Tup) and isinstance(self.as_tuple(b) or b, Tup):
+                return Tup((*(self.as_tuple(a) or a).items, *(self.as_tuple(b) or b).items))  # type: ignore[union-attr]
             if isinstance(a, Const) and isinstance(b, Const) and isinstance(e.op, ast.Add) and isinstance(a.value, str) and isinstance(b.value, str):
                 return Const(a.value + b.value)
             if isinstance(e.op, ast.Add) and (isinstance(a, Const) and isinstance(a.value, str) or isinstance(b, Const) and isinstance(b.value, str)):
@@ -850,6 +965,7 @@ class Interp:
         if isinstance(v, Alt):
             return self.mk_alt([(g, self.subscript(o, sl, fr, node)) for g, o in v.options])
         if isinstance(sl, ast.Slice):
+            v = self.as_tuple(v) or v
             if isinstance(v, (Coll, Tup)):
                 ents = list(v.entries) if isinstance(v, Coll) else [(x, TRUE) for x in v.items]
                 bounds = []
@@ -867,7 +983,17 @@ class Interp:
             if isinstance(v, Sym) and sl.lower is None and sl.upper is None and isinstance(sl.step, ast.UnaryOp) and isinstance(sl.step.op, ast.USub) and isinstance(sl.step.operand, ast.Constant) and sl.step.operand.value == 1:
                 return Sym(("reversed", v.term))
             return Sym(("slice", term_of(v)))
-        idx = self.eval(sl, fr)
+        return self.index_value(v, self.eval(sl, fr), node)
+
+    def index_value(self, v: Val, idx: Val, node: ast.AST | None) -> Val:
+        """`v[idx]` for evaluated operands (no slices)."""
+        if isinstance(v, Alt):
+            return self.mk_alt([(g, self.index_value(o, idx, node)) for g, o in v.options])
+        t_ = self.as_tuple(v)
+        if t_ is not None:
+            v = t_
+        if isinstance(v, ClsV) and is_enum(self.repo, v.ci) and isinstance(idx, Const) and idx.value in enum_members(self.repo, v.ci):
+            return Const(("enum", v.ci.fq, idx.value))
         if isinstance(idx, BoolF) and isinstance(v, (Tup, DictV, Coll)):
             # a two-way table selected by a condition: `("objects", "subjects")[flag]`, `{True: a, False: b}[flag]`
             return self.mk_alt([(idx.f, self._index_const(v, True, node)), (f_not(idx.f), self._index_const(v, False, node))])
@@ -911,6 +1037,10 @@ class Interp:
                 if not v.constructing and v.written_at.get(attr, "init") == "init":
                     v.entry_reads.add(attr)
                 return v.fields[attr]
+            if attr in ("_replace", "_asdict", "_fields", "count", "index") and self.as_tuple(v) is not None and self.repo.lookup_method(v.cls, attr) is None:
+                if attr == "_fields":
+                    return Tup(tuple(Const(n) for n in v.fields))
+                return Bound(v, attr)
             m = self.repo.lookup_method(v.cls, attr)
             if m is not None:
                 if is_prop(m):
@@ -929,8 +1059,33 @@ class Interp:
                 return ClsV(v.cls)
             v.entry_reads.add(attr)
             return Sym(("attr", term_of(v), attr))
+        if isinstance(v, ClsV) and is_enum(self.repo, v.ci) and attr in enum_members(self.repo, v.ci):
+            return Const(("enum", v.ci.fq, attr))
+        if isinstance(v, Const) and isinstance(v.value, tuple) and v.value[:1] == ("enum",):
+            eci = self.repo.classes.get(v.value[1])
+            if attr == "name":
+                return Const(v.value[2])
+            if eci is not None and attr in ("value", "_value_"):
+                for c in self.repo.mro(eci):
+                    if v.value[2] in c.class_attrs:
+                        val = self.eval_in_module(c.class_attrs[v.value[2]], c)
+                        return val if isinstance(val, (Const, Tup)) else Sym(("enumvalue", v.value[1], v.value[2]))
+            if eci is not None:
+                m = self.repo.lookup_method(eci, attr)
+                if m is not None:
+                    if is_prop(m):
+                        return self.invoke(m, v, [], {}, None, node, fr)
+                    return Fn(m, None if m.is_staticmethod else ClsV(eci) if m.is_classmethod else v)
+            return Sym(("attr", term_of(v), attr))
         if isinstance(v, ClsV):
             m = self.repo.lookup_method(v.ci, attr)
+            if m is None and attr in ("_make", "_fields") and is_namedtuple(self.repo, v.ci):
+                if attr == "_make":
+                    return Bound(v, "_make")
+                names_: list[str] = []
+                for c in reversed(self.repo.mro(v.ci)):
+                    names_ += [n for n in c.ann_attrs if n not in names_]
+                return Tup(tuple(Const(n) for n in names_))
             if m is not None:
                 if m.is_classmethod:
                     return Fn(m, v)
@@ -1062,10 +1217,18 @@ class Interp:
             return self.builtin_method(fv.recv, fv.name, args, kwargs, node, fr)
         if isinstance(fv, Partial):
             return self.apply(fv.fn, [*fv.args, *args], {**fv.kwargs, **kwargs}, node, fr)
+        if isinstance(fv, Getter) and len(args) == 1:
+            return self.apply_getter(fv, args[0], node, fr)
+        if isinstance(fv, Inst):
+            call_m = self.repo.lookup_method(fv.cls, "__call__")
+            if call_m is not None:
+                return self.invoke(call_m, fv, args, kwargs, None, node, fr)
         if isinstance(fv, Sym):
             t = fv.term
             if t[0] == "lib":
                 return self.lib_call(t[1], args, kwargs, node, fr)
+            if t[0] == "attr" and isinstance(t[1], tuple) and t[1][:1] == ("builtin",) and t[1][1] in ("set", "frozenset", "list", "dict", "tuple", "str") and args and isinstance(args[0], (Coll, DictV, Tup, Const)):
+                return self.builtin_method(args[0], t[2], list(args[1:]), kwargs, node, fr)  # unbound method: set.union(a, b)
             if t[0] == "attr":
                 recv = Sym(t[1], None) if isinstance(t[1], tuple) else None
                 name = t[2]
@@ -1082,8 +1245,23 @@ class Interp:
                 return self.opaque_call(name, recv, args, kwargs, node, fr)
             if t[0] == "builtin":
                 return self.builtin(t[1], args, kwargs, node, fr)
+
             return self.opaque_call(show_term(t), None, args, kwargs, node, fr)
         return self.opaque_call(show_term(term_of(fv)), None, args, kwargs, node, fr)
+
+    def apply_getter(self, gt: Getter, x: Val, node: ast.AST | None, fr: Frame | None) -> Val:
+        if gt.kind == "item":
+            outs = [self.index_value(x, k, node) for k in gt.keys]
+        elif gt.kind == "attr":
+            outs = []
+            for dotted_name in gt.keys:
+                cur = x
+                for part in str(dotted_name).split("."):
+                    cur = self.getattr(cur, part, node, fr)
+                outs.append(cur)
+        else:
+            return self.apply(self.getattr(x, str(gt.keys[0]), node, fr), list(gt.args), dict(gt.kwargs), node, fr)
+        return outs[0] if len(outs) == 1 else Tup(tuple(outs))
 
     def opaque_call(self, name: str, recv: Val | None, args: list, kwargs: dict, node: ast.AST | None, fr: Frame | None, cls: str | None = None) -> Val:
         parts = [term_of(recv)] if recv is not None else []
@@ -1167,6 +1345,18 @@ class Interp:
         return None
 
     def instantiate(self, ci: ClassInfo, args: list, kwargs: dict, node: ast.AST | None, fr: Frame | None) -> Val:
+        if is_enum(self.repo, ci) and len(args) == 1 and not kwargs:
+            a = args[0]
+            if isinstance(a, Const) and isinstance(a.value, tuple) and a.value[:1] == ("enum",):
+                return a
+            if isinstance(a, Alt):
+                return self.mk_alt([(g, self.instantiate(ci, [o], {}, node, fr)) for g, o in a.options])
+            if isinstance(a, Const):
+                for n in enum_members(self.repo, ci):
+                    mv = self.getattr(Const(("enum", ci.fq, n)), "value", node, fr)
+                    if isinstance(mv, Const) and mv.value == a.value and type(mv.value) is type(a.value):
+                        return Const(("enum", ci.fq, n))
+            return Sym(("new", ci.name, term_of(a)), ci.fq)
         init = self.repo.lookup_method(ci, "__init__")
         is_dc = any(c.is_dataclass for c in self.repo.mro(ci))
         if init is not None and self.descend(init):
@@ -1233,6 +1423,8 @@ class Interp:
 
     # ------------------------------------------------------------------ builtins and library functions
     def builtin(self, name: str, args: list, kwargs: dict, node: ast.AST | None, fr: Frame | None) -> Val:
+        if name in ("reversed", "tuple", "list", "set", "frozenset", "sorted", "iter", "len", "zip", "enumerate", "map", "filter", "any", "all", "sum", "next", "dict", "min", "max"):
+            args = [self.as_tuple(a) or a for a in args]
         a0 = args[0] if args else None
         if name == "type" and len(args) == 1 and isinstance(a0, Inst):
             return ClsV(a0.cls)
@@ -1280,11 +1472,22 @@ class Interp:
                 return BoolF(self.truth(Sym(("call", name, term_of(a0)))))
             f = f_or([f_and([g, self.truth(x)]) for x, g in ents]) if name == "any" else f_and([f_or([f_not(g), self.truth(x)]) for x, g in ents])
             return Const(True) if f == TRUE else Const(False) if f == FALSE else BoolF(f)
-        if name == "map" and len(args) >= 2:
+        if name == "map" and len(args) == 2:
             out = Coll("iter", [], self.serial())
-            for x, g in (self.iterate(args[1]) or [])[:MAX_ENTRIES]:
+            ents = self.iterate(args[1])
+            if ents is None:
+                ents = [(Sym(("elem", term_of(args[1]), self.fresh_iter())), TRUE)]
+            for x, g in ents[:MAX_ENTRIES]:
                 self.path.append(g)
                 out.entries.append((self.apply(args[0], [x], {}, node, fr), g))
+                self.path.pop()
+            return out
+        if name == "map" and len(args) > 2:
+            rows = self.builtin("zip", args[1:], {}, node, fr)
+            out = Coll("iter", [], self.serial())
+            for x, g in (self.iterate(rows) or [])[:MAX_ENTRIES]:
+                self.path.append(g)
+                out.entries.append((self.apply(args[0], list(x.items) if isinstance(x, Tup) else [x], {}, node, fr), g))
                 self.path.pop()
             return out
         if name == "filter" and len(args) == 2:
@@ -1352,7 +1555,7 @@ class Interp:
         if name == "vars" and isinstance(a0, Inst):
             return DictV([(Const(k), x, TRUE) for k, x in a0.fields.items()], self.serial())
         if name == "callable":
-            return Const(isinstance(a0, (Fn, ClsV, Bound)))
+            return Const(isinstance(a0, (Fn, ClsV, Bound, Partial, Getter)))
         if name == "range":
             return Sym(("range", *[term_of(a) for a in args]))
         return self.opaque_call(name, None, args, kwargs, node, fr)
@@ -1421,7 +1624,100 @@ class Interp:
             return DictV([], self.serial())
         if fq == "functools.partial" and a0 is not None:
             return Partial(a0, list(args[1:]), dict(kwargs))
+        if fq == "functools.reduce" and len(args) >= 2:
+            ents = self.iterate(args[1])
+            if ents is not None and len(ents) <= MAX_ENTRIES and not isinstance(args[1], Sym):
+                items = list(ents)
+                if len(args) > 2:
+                    acc = args[2]
+                elif items and items[0][1] == TRUE:
+                    acc = items.pop(0)[0]
+                else:
+                    acc = None
+                if acc is not None:
+                    for x, g in items:
+                        if g == TRUE:
+                            acc = self.apply(args[0], [acc, x], {}, node, fr)
+                        else:
+                            self.path.append(g)
+                            nxt = self.apply(args[0], [acc, x], {}, node, fr)
+                            self.path.pop()
+                            acc = self.mk_alt([(g, nxt), (f_not(g), acc)])
+                    return acc
+        if fq in ("operator.or_", "operator.and_", "operator.add", "operator.sub", "operator.concat") and len(args) == 2 and fr is not None:
+            op = {"or_": ast.BitOr(), "and_": ast.BitAnd(), "add": ast.Add(), "sub": ast.Sub(), "concat": ast.Add()}[fq.split(".")[-1]]
+            tmp = Frame(fr.fi, {"__a": args[0], "__b": args[1]}, fr.selfv, None, fr.base)
+            return self.eval(ast.BinOp(left=ast.Name(id="__a", ctx=ast.Load()), op=op, right=ast.Name(id="__b", ctx=ast.Load())), tmp)
+        if fq == "operator.itemgetter" and args:
+            return Getter("item", list(args))
+        if fq == "operator.attrgetter" and args and all(isinstance(a, Const) and isinstance(a.value, str) for a in args):
+            return Getter("attr", [a.value for a in args])
+        if fq == "operator.methodcaller" and isinstance(a0, Const) and isinstance(a0.value, str):
+            return Getter("method", [a0.value], list(args[1:]), dict(kwargs))
+        if fq == "operator.getitem" and len(args) == 2:
+            return self.index_value(args[0], args[1], node)
+        if fq in ("operator.not_", "operator.truth") and len(args) == 1:
+            f = self.truth(args[0])
+            f = f_not(f) if fq.endswith("not_") else f
+            return Const(True) if f == TRUE else Const(False) if f == FALSE else BoolF(f)
+        if fq in ("operator.eq", "operator.ne") and len(args) == 2 and fr is not None:
+            f = self._equal(args[0], args[1], node, fr)  # type: ignore[arg-type]
+            f = f_not(f) if fq.endswith("ne") else f
+            return Const(True) if f == TRUE else Const(False) if f == FALSE else BoolF(f)
+        if fq in ("operator.is_", "operator.is_not") and len(args) == 2 and isinstance(args[1], Const) and args[1].value is None:
+            f = self.is_none(args[0])
+            f = f_not(f) if fq.endswith("is_not") else f
+            return Const(True) if f == TRUE else Const(False) if f == FALSE else BoolF(f)
+        if fq == "operator.contains" and len(args) == 2 and fr is not None:
+            f = self._contains(args[0], args[1], node, fr)  # type: ignore[arg-type]
+            return Const(True) if f == TRUE else Const(False) if f == FALSE else BoolF(f)
+        if fq == "itertools.starmap" and len(args) == 2:
+            out = Coll("iter", [], self.serial())
+            ents = self.iterate(args[1])
+            if ents is None:
+                ents = [(Sym(("elem", term_of(args[1]), self.fresh_iter())), TRUE)]
+            for x, g in ents[:MAX_ENTRIES]:
+                self.path.append(g)
+                row = self.iterate(x)
+                out.entries.append((self.apply(args[0], [y for y, _g in row] if row is not None and not isinstance(x, Sym) else [self._component(x, 0, 2), self._component(x, 1, 2)], {}, node, fr), g))
+                self.path.pop()
+            return out
+        if fq == "itertools.filterfalse" and len(args) == 2:
+            out = Coll("iter", [], self.serial())
+            for x, g in (self.iterate(args[1]) or [])[:MAX_ENTRIES]:
+                self.path.append(g)
+                keep = f_not(self.truth(x) if isinstance(args[0], Const) and args[0].value is None else self.truth(self.apply(args[0], [x], {}, node, fr)))
+                self.path.pop()
+                if keep != FALSE:
+                    out.entries.append((x, f_and([g, keep])))
+            return out
+        if fq in ("collections.namedtuple", "typing.NamedTuple") and isinstance(a0, Const) and isinstance(a0.value, str) and len(args) >= 2:
+            made = self.make_record_class(a0.value, args[1], fr)
+            if made is not None:
+                return made
         return self.opaque_call(fq, None, args, kwargs, node, fr)
+
+    def make_record_class(self, name: str, fields_v: Val, fr: Frame | None) -> Val | None:
+        """The class made by `namedtuple("X", "a b")` / `namedtuple("X", ["a", "b"])` / `NamedTuple("X", [("a", int), ..])`."""
+        names: list[str] = []
+        if isinstance(fields_v, Const) and isinstance(fields_v.value, str):
+            names = fields_v.value.replace(",", " ").split()
+        else:
+            for x, g in self.iterate(fields_v) or []:
+                if isinstance(x, Tup) and x.items and isinstance(x.items[0], Const):
+                    x = x.items[0]
+                if not (isinstance(x, Const) and isinstance(x.value, str)) or g != TRUE:
+                    return None
+                names.append(x.value)
+        if not names or fr is None:
+            return None
+        made = self.__dict__.setdefault("_record_classes", {})
+        key = (fr.fi.module.name, name, tuple(names))
+        if key not in made:
+            ci = ClassInfo(name=name, node=ast.ClassDef(name=name, bases=[], keywords=[], body=[], decorator_list=[]), module=fr.fi.module, base_exprs=[], bases=["typing.NamedTuple"])
+            ci.ann_attrs = {n: ast.Constant(value=None) for n in names}
+            made[key] = ci
+        return ClsV(made[key])
 
     def _replace(self, base: Val, overrides: dict, node: ast.AST | None, fr: Frame | None) -> Val:
         if isinstance(base, Alt):
@@ -1440,6 +1736,15 @@ class Interp:
     def builtin_method(self, recv: Val, name: str, args: list, kwargs: dict, node: ast.AST | None, fr: Frame | None) -> Val:
         a0 = args[0] if args else None
         g = self.guard()
+        if isinstance(recv, Inst) and name == "_replace":
+            return self._replace(recv, kwargs, node, fr)
+        if isinstance(recv, Inst) and name == "_asdict":
+            return DictV([(Const(k), x, TRUE) for k, x in recv.fields.items()], self.serial())
+        if isinstance(recv, ClsV) and name == "_make" and a0 is not None:
+            ents = self.iterate(a0)
+            if ents is not None and all(gx == TRUE for _x, gx in ents):
+                return self.instantiate(recv.ci, [x for x, _g in ents], {}, node, fr)
+            return Sym(("call", "_make", term_of(recv), term_of(a0)), recv.ci.fq)
         if isinstance(recv, Coll):
             if name in ("add", "append") and a0 is not None:
                 recv.entries.append((a0, g))
@@ -1736,6 +2041,7 @@ class Interp:
             self.assign(target.value, v, fr)
 
     def _component(self, v: Val, i: int, n: int) -> Val:
+        v = self.as_tuple(v) or v
         if isinstance(v, Tup) and len(v.items) == n:
             return v.items[i]
         if isinstance(v, Coll) and len(v.entries) == n and all(g == TRUE for _x, g in v.entries):
@@ -1760,6 +2066,7 @@ def _own(fn: ast.AST):
 
 
 _TABLE_WRAPPERS = {"tuple", "list", "set", "frozenset", "dict"}
+_TABLE_MAKERS = {"itemgetter", "attrgetter", "methodcaller", "partial", "namedtuple", "NamedTuple"}  # pure constructors of callables / record classes
 
 
 def _literal_table(e: ast.expr) -> bool:
@@ -1776,6 +2083,8 @@ def _literal_table(e: ast.expr) -> bool:
         return all((k is None or _literal_table(k)) and _literal_table(v) for k, v in zip(e.keys, e.values))
     if isinstance(e, ast.Call) and isinstance(e.func, ast.Name) and e.func.id in _TABLE_WRAPPERS and not e.keywords:
         return all(_literal_table(a) for a in e.args)
+    if isinstance(e, ast.Call) and isinstance(e.func, (ast.Name, ast.Attribute)) and (e.func.id if isinstance(e.func, ast.Name) else e.func.attr) in _TABLE_MAKERS:
+        return all(_literal_table(a) for a in e.args) and all(k.arg is not None and _literal_table(k.value) for k in e.keywords)
     return False
 
 
